@@ -43,11 +43,140 @@ theorem lastNotIn_exact (f : Forwarder) (pre post : List Bytes) (a : Bytes)
   have := hpost x (by simpa using hx)
   simpa using this
 
-/-! ### Forwarded -/
+/-! ### extract_forward_array() as a left fold; what an appended element does -/
 
-/-- the walk goes past this proxy: it reports no identifier, or a trusted one -/
-def Passes (f : Forwarder) (s : Bytes) (g : List Item) : Prop :=
-  groupVal s g = none ∨ ∃ x, groupVal s g = some (.val x) ∧ (x = [] ∨ isProxyTrusted f x = true)
+/-- one step of the scanner: (token being collected (reversed), finished tokens (reversed)) -/
+def exStep (st : Option Bytes × List Bytes) (c : UInt8) : Option Bytes × List Bytes :=
+  match st.1 with
+  | none => if isHexColon c then (some [c], st.2) else (none, st.2)
+  | some cur => if isHexColon c || c = dot then (some (c :: cur), st.2) else (none, cur.reverse :: st.2)
+
+def exClose (st : Option Bytes × List Bytes) : List Bytes :=
+  match st.1 with
+  | none => st.2
+  | some cur => cur.reverse :: st.2
+
+theorem extractGo_fold (P : Bytes) (cur : Option Bytes) (acc : List Bytes) :
+    extractGo P cur acc = (exClose (P.foldl exStep (cur, acc))).reverse := by
+  induction P generalizing cur acc with
+  | nil => cases cur <;> simp [extractGo, exClose]
+  | cons c rest ih =>
+    cases cur with
+    | none =>
+      by_cases h : isHexColon c = true
+      · simp [extractGo, exStep, h, ih]
+      · simp [extractGo, exStep, h, ih]
+    | some cur =>
+      by_cases h : (isHexColon c || c = dot) = true
+      · simp only [extractGo, h, ↓reduceIte, List.foldl_cons, exStep, ih]
+      · simp only [extractGo, h, Bool.false_eq_true, ↓reduceIte, List.foldl_cons, exStep, ih]
+
+theorem fold_token (a : Bytes) (h : ∀ c ∈ a, (isHexColon c || c = dot) = true) (cur : Bytes)
+    (acc : List Bytes) : a.foldl exStep (some cur, acc) = (some (a.reverse ++ cur), acc) := by
+  induction a generalizing cur with
+  | nil => simp
+  | cons c rest ih =>
+    have hc := h c (by simp)
+    simp only [List.foldl_cons, exStep, hc, ↓reduceIte]
+    rw [ih (fun x hx => h x (by simp [hx]))]
+    simp
+
+/-- whatever precedes it, an element appended after ", " is the last token of the chain -/
+theorem extract_append (P a : Bytes) (ht : tokenLike a) :
+    extractForwardArray (P ++ [44, 32] ++ a) = extractForwardArray P ++ [a] := by
+  obtain ⟨⟨c, rest, rfl, hc⟩, hall⟩ := ht
+  unfold extractForwardArray
+  rw [extractGo_fold, extractGo_fold, List.foldl_append, List.foldl_append]
+  generalize P.foldl exStep (none, []) = st
+  obtain ⟨cur, acc⟩ := st
+  have hsep : ([44, 32] : Bytes).foldl exStep (cur, acc) = (none, exClose (cur, acc)) := by
+    cases cur <;> simp [exStep, exClose, isHexColon, isXDigit, isDigit, colon, dot]
+  rw [hsep]
+  simp only [List.foldl_cons, exStep, hc, ↓reduceIte]
+  rw [fold_token rest (fun x hx => hall x (by simp [hx]))]
+  simp [exClose]
+
+/-! ### Forwarded: the capacity of offsets[] -/
+
+theorem slots_append (a b : List Item) : slots (a ++ b) = slots a + slots b := by
+  simp [slots, List.sum_append]
+
+/-- the tokenizer only ever adds entries -/
+theorem fwdTokGo_mono (s : Bytes) (fuel i : Nat) (items r : List Item)
+    (h : fwdTokGo s fuel i items = .ok r) : slots items ≤ slots r := by
+  induction fuel generalizing i items with
+  | zero => simp only [fwdTokGo, TokRes.ok.injEq] at h; subst h; exact Nat.le_refl _
+  | succ fuel ih =>
+    simp only [fwdTokGo] at h
+    split at h
+    · simp only [TokRes.ok.injEq] at h; subst h; exact Nat.le_refl _
+    · split at h
+      · simp only [TokRes.ok.injEq] at h; subst h; exact Nat.le_refl _
+      · split at h
+        · exact ih _ _ h
+        · split at h
+          · split at h
+            · simp only [TokRes.ok.injEq] at h; subst h; exact Nat.le_refl _
+            · have := ih _ _ h
+              rw [slots_append] at this; omega
+          · split at h
+            · simp at h
+            · split at h
+              · exact ih _ _ h
+              · split at h
+                · simp at h
+                · split at h
+                  · exact ih _ _ h
+                  · split at h
+                    · simp only [TokRes.ok.injEq] at h; subst h; exact Nat.le_refl _
+                    · have := ih _ _ h
+                      rw [slots_append] at this; omega
+
+/-- if the bounded tokenizer ends below the capacity it never hit the limit: its result is the
+    complete token list of the header -/
+theorem fwdTokGo_complete (s : Bytes) (fuel i : Nat) (items r : List Item)
+    (h : fwdTokGo s fuel i items = .ok r) (hr : slots r < 253) : fwdTokGoU s fuel i items = .ok r := by
+  induction fuel generalizing i items with
+  | zero => simpa [fwdTokGo, fwdTokGoU] using h
+  | succ fuel ih =>
+    simp only [fwdTokGo] at h
+    simp only [fwdTokGoU]
+    by_cases h1 : i ≥ s.length
+    · simp only [h1, ↓reduceIte] at h ⊢; exact h
+    · simp only [h1, ↓reduceIte] at h ⊢
+      generalize i + ((s.drop i).takeWhile (fun c => c = sp || c = ht)).length = i' at h ⊢
+      cases hc : s[i']? with
+      | none => simp only [hc] at h ⊢; exact h
+      | some c =>
+        simp only [hc] at h ⊢
+        by_cases h3 : c = 59
+        · simp only [h3, ↓reduceIte] at h ⊢; exact ih _ _ h
+        · simp only [h3, ↓reduceIte] at h ⊢
+          by_cases h4 : c = 44
+          · simp only [h4, ↓reduceIte] at h ⊢
+            by_cases h5 : slots items ≥ 256
+            · simp only [h5, ↓reduceIte, TokRes.ok.injEq] at h; subst h; omega
+            · simp only [h5, ↓reduceIte] at h; exact ih _ _ h
+          · simp only [h4, ↓reduceIte] at h ⊢
+            cases hf : findNext true s i' (s.length + 1) with
+            | none => simp [hf] at h
+            | some i1 =>
+              simp only [hf] at h ⊢
+              by_cases h6 : s[i1]? ≠ some 61
+              · rw [if_pos h6] at h ⊢; exact ih _ _ h
+              · rw [if_neg h6] at h ⊢
+                cases hg : findNext false s (i1 + 1) (s.length + 1) with
+                | none => simp [hg] at h
+                | some i2 =>
+                  simp only [hg] at h ⊢
+                  by_cases h8 : i1 - i' = 0
+                  · simp only [h8, ↓reduceIte] at h ⊢; exact ih _ _ h
+                  · simp only [h8, ↓reduceIte] at h ⊢
+                    by_cases h9 : slots items ≥ 253
+                    · simp only [h9, ↓reduceIte, TokRes.ok.injEq] at h; subst h; omega
+                    · simp only [h9, ↓reduceIte] at h; exact ih _ _ h
+
+/-! ### Forwarded -/
 
 /-- Safety of the walk: the identifier it returns is the for= value of some proxy, it is
     usable as an address, and every proxy the walk went past before (= to its right in the
